@@ -5,7 +5,7 @@ SPEC = {
     "harness": "c02",
     "n": {"quick": 800, "thorough": 20000},
     "coq_modules": ["Server.Model", "Server.Spec", "Server.Witness", "Server.Release", "Server.Check"],
-    "search": {"n": 3000, "timeout": 600},
+    "search": {"n": 2000, "timeout": 600},
     "components": {"1": "an observed event is not an enabled step of the model", "2": "`Previous` given to a computation differs from the model's",
                    "3": "socket envelopes differ", "4": "SubscriptionLogger calls differ", "5": "merge.ts client state differs from the model's fold",
                    "6": "subscriptions left in the map at the end differ"},
@@ -15,6 +15,7 @@ SPEC = {
     ],
     "assumptions": [
         "results of computations are well-formed JSON (unique object keys, scalar __key)",
+        "convergence and first-message-full are stated for histories in which no socket write has failed (st_wfail = false: the client is still there)",
         "a wait of the harness that times out (20 s) is reported only if it times out again when the case is replayed once on a fresh connection (counted in the histogram)",
         "that the last run read the final data is C04's quiescence theorem; here it is checked on the implementation (version stamps on every resolver read)",
     ],
